@@ -26,6 +26,12 @@ def miRows {α} (X : Arr3 α) : List ((Int × Int) × List α) :=
 def miOf {ν α} (inst time : String) (names : List ν) (X : Arr3 α) : MI ν α :=
   ⟨inst, time, names, miRows X⟩
 
+/-- the multi-index frame holding `X` whose instances carry the identifiers `labels` (pairwise
+distinct, in ANY order: the panel's instance order is the order of the rows, not of the labels) -/
+def miOfL {ν α : Type} (inst time : String) (names : List ν) (labels : List Int) (X : Arr3 α) :
+    MI ν α :=
+  ⟨inst, time, names, relabelInstances labels (miRows X)⟩
+
 /-- rows of the long table holding `X`, as the molten canonical multi-index frame: one row
 `(i, q, name_j, X[i][j][q])` per cell, variable after variable -/
 def longRowsM {ν α : Type} (names : List ν) (X : Arr3 α) : List (Int × Int × ν × α) :=
